@@ -22,6 +22,7 @@ import (
 	"math"
 	"net/http"
 	"net/http/httptest"
+	"os"
 	"sort"
 	"strconv"
 	"strings"
@@ -294,7 +295,8 @@ func buildReal(f famSpec) prometheus.Collector {
 		}
 		return v
 	default:
-		v := prometheus.NewSummaryVec(prometheus.SummaryOpts{Name: f.name, Help: f.help, ConstLabels: f.constL, Objectives: map[float64]float64{0.5: 0.05, 0.9: 0.01}}, f.labelNames)
+		v := prometheus.NewSummaryVec(prometheus.SummaryOpts{Name: f.name, Help: f.help, ConstLabels: f.constL, Objectives: map[float64]float64{0.5: 0.05, 0.9: 0.01},
+			MaxAge: 100000 * time.Hour /* the window must not expire during a long (thorough) run: text0 is compared much later */}, f.labelNames)
 		for _, ch := range f.children {
 			o := v.WithLabelValues(ch.lvs...)
 			for k := uint64(0); k < ch.count%5; k++ {
@@ -1263,6 +1265,12 @@ func (w *world) compareCase(out *emit.Writer, c *regCtx, helper int, p perturb, 
 	}
 	err := w.runHelper(helper, c, p.text, names)
 	cls := classify(err)
+	if dbg := os.Getenv("VERIF_C17_DEBUG"); dbg != "" && p.kind == pIdentity && cls != 0 {
+		if f, e := os.OpenFile(dbg, os.O_APPEND|os.O_CREATE|os.O_WRONLY, 0o644); e == nil {
+			fmt.Fprintf(f, "=== index %d helper %d mode %d\n--- error\n%v\n--- text\n%s\n", out.Len(), helper, mode, err, p.text)
+			f.Close()
+		}
+	}
 	if cls == 1 && !looksLikeDiff(err) {
 		w.direct = append(w.direct, map[string]interface{}{"index": out.Len(), "what": "non-nil error without a +/- diff line: " + firstLine(err.Error())})
 	}
